@@ -1,11 +1,11 @@
 //! Defines parser functions related to character input.
 
 use winnow::{
-    ascii::line_ending,
-    combinator::{alt, delimited, eof, trace},
+    ascii::{line_ending, space0, space1},
+    combinator::{alt, delimited, eof, opt, repeat, trace},
     error::ParserError,
     stream::{AsChar, Compare, Stream, StreamIsPartial},
-    token::{one_of, take_till, take_while},
+    token::{one_of, take_till},
     Parser,
 };
 
@@ -53,7 +53,17 @@ where
     <I as Stream>::Token: AsChar,
     E: ParserError<I>,
 {
-    trace("character::newlines", take_while(0.., b"\r\n")).parse_next(input)
+    // a line only with spaces is also an empty line,
+    // but the indent of a non-empty line must be left untouched.
+    trace(
+        "character::newlines",
+        (
+            repeat::<_, _, (), _, _>(0.., (space0, line_ending)),
+            opt((space1, eof)),
+        )
+            .take(),
+    )
+    .parse_next(input)
 }
 
 /// Parses unnested string in paren.
